@@ -94,7 +94,7 @@ class SimLimit(RuntimeError):
 class Air:
     """fake ContactlessFrontend: scripted faulty channel in front of an IsoCard"""
 
-    def __init__(self, card, script="", max_send=256, max_recv=256, ats=None, attrib_res=b"\x00", cap=4000):
+    def __init__(self, card, script="", max_send=256, max_recv=256, ats=None, attrib_res=b"\x00", cap=400):
         self.card, self.script, self.pos = card, script, 0
         self.max_send_data_size, self.max_recv_data_size = max_send, max_recv
         self.ats, self.attrib_res = ats, attrib_res
